@@ -949,6 +949,10 @@ struct Env {
     event_overhead: usize,     // payload length of TestEvent{message of n bytes} = n + overhead (n < 128: ; measured per size class)
     value_overhead: usize,     // stored KV entry length = raw + overhead (for raw in 2^7..2^14: measured at 10_000)
     buffer_field_len: usize,   // stored length of the BufferLimit state field (measured)
+    pk: Secp256k1PublicKey,
+    account: ComponentAddress,
+    nfres: ResourceAddress,
+    meta_event_overhead: usize, // SetMetadataEvent payload = overhead + key bytes + value bytes (both < 128), measured
     runs: u64,
 }
 
@@ -967,6 +971,26 @@ enum Item {
     Value(usize),
     /// BufferLimit::new(): a component with one 200 KiB field is created (CreateNodeEvent::Start checks it)
     BufferNew,
+    /// native: metadata set on the account with a key string of k bytes and a string value of v bytes
+    /// (kv entry open: OpenSubstateEvent::Start with a Map key of 3 + k bytes; emits SetMetadataEvent)
+    MetaSet(usize, usize),
+    /// native: withdraw the non-fungible with the n-byte id from the account (vault index remove:
+    /// RemoveSubstateEvent) and deposit it back (index insert: SetSubstateEvent)
+    NfCycle(usize),
+    /// native: withdraw one non-fungible by amount (vault index drain: DrainSubstatesEvent) and deposit it back
+    NfDrain,
+    /// native: account.non_fungible_local_ids (vault index scan: ScanKeysEvent)
+    NfScan,
+}
+
+/// byte lengths of the local ids of the non-fungibles held by the account
+const NF_ID_LENS: [usize; 4] = [10, 51, 52, 53];
+fn nf_id(n: usize) -> NonFungibleLocalId {
+    NonFungibleLocalId::bytes(vec![n as u8; n]).unwrap()
+}
+/// the vault index key of an id: SubstateKey::Map(scrypto_encode(id))
+fn nf_key_len(n: usize) -> usize {
+    scrypto_encode(&nf_id(n)).unwrap().len()
 }
 
 fn varint_len(n: usize) -> usize {
@@ -988,7 +1012,17 @@ impl Env {
             .execute_manifest(ManifestBuilder::new().lock_fee_from_faucet().call_function(tl, "TransactionLimitTest", "new", manifest_args!()).build(), vec![])
             .expect_commit_success()
             .new_component_addresses()[0];
-        let mut env = Env { ledger, tl, rec, comp, lock_fee_event_len: 0, event_overhead: 0, value_overhead: 0, buffer_field_len: 0, runs: 0 };
+        let (pk, _sk, account) = ledger.new_allocated_account();
+        let nfres = {
+            let entries: Vec<(NonFungibleLocalId, ())> = NF_ID_LENS.iter().map(|n| (nf_id(*n), ())).collect();
+            let manifest = ManifestBuilder::new()
+                .lock_fee_from_faucet()
+                .create_non_fungible_resource(OwnerRole::None, NonFungibleIdType::Bytes, true, NonFungibleResourceRoles::default(), metadata!(), Some(entries))
+                .try_deposit_entire_worktop_or_abort(account, None)
+                .build();
+            ledger.execute_manifest(manifest, vec![]).expect_commit(true).new_resource_addresses()[0]
+        };
+        let mut env = Env { ledger, tl, rec, comp, lock_fee_event_len: 0, event_overhead: 0, value_overhead: 0, buffer_field_len: 0, pk, account, nfres, meta_event_overhead: 0, runs: 0 };
         // measurements under the default limits (from the outputs of the engine, not from the limit code)
         let r = env.exec(&[Item::Event(10), Item::Value(10_000)], None);
         let c = r.expect_commit_success();
@@ -1034,6 +1068,14 @@ impl Env {
             }
         }
         assert!(env.buffer_field_len > 0);
+        let r = env.exec(&[Item::MetaSet(10, 10)], None);
+        let c = r.expect_commit_success();
+        for (id, data) in &c.application_events {
+            if id.1 == "SetMetadataEvent" {
+                env.meta_event_overhead = data.len() - 20;
+            }
+        }
+        assert!(env.meta_event_overhead > 0);
         env
     }
 
@@ -1054,6 +1096,10 @@ impl Env {
                 Item::Invoke(n) => b.call_function(self.tl, "InvokeLimitsTest", "call", manifest_args!(*n)),
                 Item::Value(n) => b.call_function(self.tl, "TransactionLimitSubstateTest", "write_large_values", manifest_args!(vec![*n])),
                 Item::BufferNew => b.call_function(self.tl, "BufferLimit", "new", manifest_args!()),
+                Item::MetaSet(k, v) => b.set_metadata(self.account, "k".repeat(*k), MetadataValue::String("v".repeat(*v))),
+                Item::NfCycle(n) => b.withdraw_non_fungibles_from_account(self.account, self.nfres, [nf_id(*n)]).deposit_entire_worktop(self.account),
+                Item::NfDrain => b.withdraw_from_account(self.account, self.nfres, 1).deposit_entire_worktop(self.account),
+                Item::NfScan => b.call_method(self.account, "non_fungible_local_ids", manifest_args!(self.nfres, 10u32)),
             };
         }
         b.build()
@@ -1071,7 +1117,7 @@ impl Env {
     fn exec_manifest(&mut self, manifest: TransactionManifestV1, lp: Option<LimitParameters>) -> Result<TransactionReceipt, String> {
         self.runs += 1;
         let nonce = self.ledger.next_transaction_nonce();
-        let tx = TestTransaction::new_v1_from_nonce(manifest, nonce, btreeset!());
+        let tx = TestTransaction::new_v1_from_nonce(manifest, nonce, btreeset![NonFungibleGlobalId::from_public_key(&self.pk)]);
         let ledger = &mut self.ledger;
         catch(std::panic::AssertUnwindSafe(|| ledger.execute_transaction_no_commit(tx, Self::config(lp))))
     }
@@ -1088,6 +1134,10 @@ impl Env {
     fn value_len(&self, raw: usize) -> usize {
         // overhead measured at raw = 10_000 (two length bytes)
         raw + self.value_overhead - 2 + varint_len(raw)
+    }
+    fn meta_event_len(&self, k: usize, v: usize) -> usize {
+        assert!(k < 128 && v < 128);
+        self.meta_event_overhead + k + v
     }
     fn invoke_len(&self, raw: usize) -> usize {
         // invocation.len() = actor (package address + blueprint name + function name) + args
@@ -1173,7 +1223,12 @@ fn gen_tx(env: &mut Env, rng: &mut Rng, report: &mut Report) -> (LimitParameters
     let n_items = 1 + rng.usize_below(5);
     let mut items = Vec::new();
     for _ in 0..n_items {
-        let it = match rng.below(12) {
+        let it = match rng.below(13) {
+            12 => {
+                // native: metadata entry with a key string around the key size limit (other keys of the transaction are below 70 bytes)
+                lp.max_substate_key_size = 70 + rng.usize_below(31);
+                Item::MetaSet(around(rng, lp.max_substate_key_size - 3, 10).min(100), rng.usize_below(60))
+            }
             0 | 1 | 2 => Item::Log(around(rng, lp.max_log_size, 200)),
             3 | 4 | 5 => {
                 // land the payload length on the limit
@@ -1215,7 +1270,12 @@ fn gen_tx(env: &mut Env, rng: &mut Rng, report: &mut Report) -> (LimitParameters
                 Item::Recurse(n) => lp.max_call_depth = lp.max_call_depth.max(*n as usize),
                 Item::Invoke(n) => lp.max_invoke_input_size = lp.max_invoke_input_size.max(env.invoke_len(*n)),
                 Item::Value(n) => lp.max_substate_value_size = lp.max_substate_value_size.max(env.value_len(*n)),
-                Item::BufferNew => {}
+                Item::BufferNew | Item::NfCycle(_) | Item::NfDrain | Item::NfScan => {}
+                Item::MetaSet(k, v) => {
+                    lp.max_substate_key_size = lp.max_substate_key_size.max(3 + k);
+                    lp.max_event_size = lp.max_event_size.max(env.meta_event_len(*k, *v));
+                    lp.max_number_of_events += 1;
+                }
             }
         }
     }
@@ -1239,6 +1299,10 @@ fn run_tx(env: &mut Env, lp: LimitParameters, limits_on: bool, fee: bool, items:
             Item::Invoke(_) => "tx_item_invoke",
             Item::Value(_) => "tx_item_value",
             Item::BufferNew => "tx_item_buffer_new",
+            Item::MetaSet(..) => "tx_item_meta_set",
+            Item::NfCycle(_) => "tx_item_nf_cycle",
+            Item::NfDrain => "tx_item_nf_drain",
+            Item::NfScan => "tx_item_nf_scan",
         });
     }
 
@@ -1271,15 +1335,47 @@ fn run_tx(env: &mut Env, lp: LimitParameters, limits_on: bool, fee: bool, items:
                 ops.push("OReturn".into());
             }
             Item::Value(n) => {
-                ops.push(format!("OValue {}", env.value_len(*n)));
+                ops.push(format!("OH (HWriteStart {})", env.value_len(*n)));
                 // globalize: the module objects are created by blueprint calls (one level deeper)
                 ops.push("OInvoke 0".into());
                 ops.push("OReturn".into());
             }
             Item::BufferNew => {
                 // the component node: its state field is the only large substate of the node
-                ops.push(format!("OCreateNode [(KField, {})]", env.buffer_field_len));
+                ops.push(format!("OH (HCreateNodeStart [(KField, {})])", env.buffer_field_len));
                 ops.push("OInvoke 0".into());
+                ops.push("OReturn".into());
+            }
+            Item::MetaSet(k, v) => {
+                // Metadata::set: the kv entry is opened (key check), written, then the event is emitted
+                ops.push(format!("OH (HOpenStart (KMap {}))", 3 + k));
+                ops.push(format!("OEvent {}", env.meta_event_len(*k, *v)));
+            }
+            Item::NfCycle(n) => {
+                // account.withdraw_non_fungibles -> vault.take_non_fungibles: index remove of the id key;
+                // (events of the withdrawal and deposit are not listed: event limits are left at their defaults)
+                ops.push("OInvoke 0".into());
+                ops.push(format!("OH (HRemoveStart (KMap {}))", nf_key_len(*n)));
+                ops.push("OReturn".into());
+                ops.push("OReturn".into());
+                // account.deposit_batch -> vault.put: index insert of the id key (the entry value is a few bytes)
+                ops.push("OInvoke 0".into());
+                ops.push("OInvoke 0".into());
+                ops.push(format!("OH (HSetStart (KMap {}) 0)", nf_key_len(*n)));
+                ops.push("OReturn".into());
+            }
+            Item::NfDrain => {
+                ops.push("OInvoke 0".into());
+                ops.push("OH HDrainStart".into());
+                ops.push("OReturn".into());
+                ops.push("OReturn".into());
+                ops.push("OInvoke 0".into());
+                ops.push("OInvoke 0".into());
+                ops.push("OReturn".into());
+            }
+            Item::NfScan => {
+                ops.push("OInvoke 0".into());
+                ops.push("OH HScanKeysStart".into());
                 ops.push("OReturn".into());
             }
         }
@@ -1290,7 +1386,7 @@ fn run_tx(env: &mut Env, lp: LimitParameters, limits_on: bool, fee: bool, items:
     let r = {
         env.runs += 1;
         let nonce = env.ledger.next_transaction_nonce();
-        let tx = TestTransaction::new_v1_from_nonce(m, nonce, btreeset!());
+        let tx = TestTransaction::new_v1_from_nonce(m, nonce, btreeset![NonFungibleGlobalId::from_public_key(&env.pk)]);
         let mut c = Env::config(Some(lp));
         if !limits_on || !fee {
             let mut o = c.system_overrides.clone().unwrap();
@@ -1312,7 +1408,8 @@ fn run_tx(env: &mut Env, lp: LimitParameters, limits_on: bool, fee: bool, items:
 
     // ---- oracle: the property statement on the parameters of the program ----
     let n_logs = items.iter().filter(|i| matches!(i, Item::Log(_))).count();
-    let n_events = fee as usize + items.iter().filter(|i| matches!(i, Item::Event(_))).count();
+    let n_events = fee as usize + items.iter().filter(|i| matches!(i, Item::Event(_) | Item::MetaSet(..))).count();
+    let nf_items = items.iter().any(|i| matches!(i, Item::NfCycle(_) | Item::NfDrain | Item::NfScan));
     let mut exceed: Vec<String> = Vec::new(); // what the program exceeds (any of them may be reported)
     if limits_on {
         if fee && lp.max_call_depth < 2 {
@@ -1332,7 +1429,7 @@ fn run_tx(env: &mut Env, lp: LimitParameters, limits_on: bool, fee: bool, items:
         }
         for it in items {
             // these programs call one level deeper (the callee / the module blueprints at globalize)
-            if matches!(it, Item::Invoke(_) | Item::Value(_) | Item::BufferNew) && lp.max_call_depth < 2 {
+            if matches!(it, Item::Invoke(_) | Item::Value(_) | Item::BufferNew | Item::NfCycle(_) | Item::NfDrain | Item::NfScan) && lp.max_call_depth < 2 {
                 exceed.push("CallDepthReached".into());
             }
             match it {
@@ -1343,6 +1440,15 @@ fn run_tx(env: &mut Env, lp: LimitParameters, limits_on: bool, fee: bool, items:
                 Item::Invoke(n) if env.invoke_len(*n) > lp.max_invoke_input_size => exceed.push(format!("InvokeExceeded {}", env.invoke_len(*n))),
                 Item::Value(n) if env.value_len(*n) > lp.max_substate_value_size => exceed.push(format!("ValueExceeded {}", env.value_len(*n))),
                 Item::BufferNew if env.buffer_field_len > lp.max_substate_value_size => exceed.push(format!("ValueExceeded {}", env.buffer_field_len)),
+                Item::MetaSet(k, v) => {
+                    if 3 + k > lp.max_substate_key_size {
+                        exceed.push(format!("KeyExceeded {}", 3 + k));
+                    }
+                    if env.meta_event_len(*k, *v) > lp.max_event_size {
+                        exceed.push(format!("EventTooLarge {} {}", env.meta_event_len(*k, *v), lp.max_event_size));
+                    }
+                }
+                Item::NfCycle(n) if nf_key_len(*n) > lp.max_substate_key_size => exceed.push(format!("KeyExceeded {}", nf_key_len(*n))),
                 _ => {}
             }
         }
@@ -1364,8 +1470,8 @@ fn run_tx(env: &mut Env, lp: LimitParameters, limits_on: bool, fee: bool, items:
                 if c.application_logs.len() != n_logs || (limits_on && c.application_logs.len() > lp.max_number_of_logs) {
                     report.oracle_failure(idx, "", &format!("{} logs in the receipt, program emits {}", c.application_logs.len(), n_logs), input.clone());
                 }
-                let user_events = c.application_events.iter().filter(|(id, _)| id.1 == "TestEvent" || (fee && id.1 == "LockFeeEvent")).count();
-                if user_events != n_events {
+                let user_events = c.application_events.iter().filter(|(id, _)| id.1 == "TestEvent" || id.1 == "SetMetadataEvent" || (fee && id.1 == "LockFeeEvent")).count();
+                if user_events != n_events && !nf_items {
                     report.oracle_failure(idx, "", &format!("{} execution events in the receipt, program emits {}", user_events, n_events), input.clone());
                 }
                 for (id, data) in &c.application_events {
@@ -1414,11 +1520,21 @@ fn run_tx(env: &mut Env, lp: LimitParameters, limits_on: bool, fee: bool, items:
                 Item::Invoke(n) => format!("det_tx_invoke_{}", rel(env.invoke_len(*n) as u128, lp.max_invoke_input_size)),
                 Item::Value(n) => format!("det_tx_value_{}", rel(env.value_len(*n) as u128, lp.max_substate_value_size)),
                 Item::BufferNew => format!("det_tx_create_node_value_{}", rel(env.buffer_field_len as u128, lp.max_substate_value_size)),
+                Item::MetaSet(k, v) => {
+                    report.count(&format!("det_tx_native_event_size_{}{}_{}", rel(env.meta_event_len(*k, *v) as u128, lp.max_event_size), tag, outcome));
+                    format!("det_tx_key_size_open_{}", rel((3 + k) as u128, lp.max_substate_key_size))
+                }
+                Item::NfCycle(n) => format!("det_tx_key_size_remove_set_{}", rel(nf_key_len(*n) as u128, lp.max_substate_key_size)),
+                Item::NfDrain => "det_tx_drain".to_string(),
+                Item::NfScan => "det_tx_scan_keys".to_string(),
             };
             report.count(&format!("{}{}_{}", k, tag, outcome));
         }
         report.count(&format!("det_tx_logs_count_{}{}_{}", rel(n_logs as u128, lp.max_number_of_logs), tag, outcome));
         report.count(&format!("det_tx_events_count_{}_{}{}_{}", if fee { "fee" } else { "nofee" }, rel(n_events as u128, lp.max_number_of_events), tag, outcome));
+        if !items.is_empty() && items.iter().all(|i| matches!(i, Item::MetaSet(..))) {
+            report.count(&format!("det_tx_native_events_count_{}{}_{}", rel(n_events as u128, lp.max_number_of_events), tag, outcome));
+        }
     }
     if idx < 12 {
         report.sample(json!({"tx": input}));
@@ -1484,6 +1600,31 @@ const DET_TX_FLOORS: &[&str] = &[
     "det_tx_log_size_above_limits_off_passes",
     "det_tx_logs_count_limit_plus_1_limits_off_passes",
     "det_tx_events_count_nofee_limit_plus_1_limits_off_passes",
+    "det_tx_key_size_open_limit_minus_1_passes",
+    "det_tx_key_size_open_at_limit_passes",
+    "det_tx_key_size_open_limit_plus_1_fails",
+    "det_tx_key_size_remove_set_limit_minus_1_passes",
+    "det_tx_key_size_remove_set_at_limit_passes",
+    "det_tx_key_size_remove_set_limit_plus_1_fails",
+    "det_tx_native_event_size_limit_minus_1_passes",
+    "det_tx_native_event_size_at_limit_passes",
+    "det_tx_native_event_size_limit_plus_1_fails",
+    "det_tx_native_events_count_limit_minus_1_passes",
+    "det_tx_native_events_count_at_limit_passes",
+    "det_tx_native_events_count_limit_plus_1_fails",
+    "det_tx_key_size_open_above_limits_off_passes",
+    "det_tx_key_size_remove_set_above_limits_off_passes",
+    "det_tx_drain_passes",
+    "det_tx_scan_keys_passes",
+    "detc_tx_track_remove_set_peak_invariant",
+    "detc_tx_track_drain_set_peak_invariant",
+    "detc_tx_heap_remove_set_peak_invariant",
+    "detc_tx_heap_drain_set_peak_invariant",
+    "detc_tx_key_size_metadata_open",
+    "detc_tx_key_size_nf_remove_set",
+    "detc_tx_native_event_size",
+    "detc_tx_native_events_count",
+    "detc_tx_nf_drain_scan",
 ];
 
 fn det_tx_family(env: &mut Env, report: &mut Report, cw: &mut CaseWriter) {
@@ -1584,6 +1725,35 @@ fn det_tx_family(env: &mut Env, report: &mut Report, cw: &mut CaseWriter) {
             run(env, report, cw, "detc_tx_create_node_value", lp, true, true, vec![Item::BufferNew]);
         }
     }
+    // substate key size through native blueprints: metadata entry (kv entry open) and non-fungible vault index
+    // (remove on withdraw by id, set on deposit); the other keys of these transactions are shorter than the limit
+    {
+        for k in [10usize, 76, 77, 78] {
+            let mut lp = base();
+            lp.max_substate_key_size = 80;
+            run(env, report, cw, "detc_tx_key_size_metadata_open", lp, true, true, vec![Item::MetaSet(k, 5)]);
+        }
+        for n in NF_ID_LENS {
+            let mut lp = base();
+            lp.max_substate_key_size = nf_key_len(52);
+            run(env, report, cw, "detc_tx_key_size_nf_remove_set", lp, true, true, vec![Item::NfCycle(n)]);
+        }
+        run(env, report, cw, "detc_tx_nf_drain_scan", base(), true, true, vec![Item::NfDrain, Item::NfScan, Item::NfCycle(51)]);
+    }
+    // native events: SetMetadataEvent size at the limit, number of events with two native emitters
+    {
+        let s0 = env.meta_event_len(20, 20);
+        for l in around3(s0) {
+            let mut lp = base();
+            lp.max_event_size = l;
+            run(env, report, cw, "detc_tx_native_event_size", lp, true, true, vec![Item::MetaSet(20, 20)]);
+        }
+        for max in around3(3) {
+            let mut lp = base();
+            lp.max_number_of_events = max;
+            run(env, report, cw, "detc_tx_native_events_count", lp, true, true, vec![Item::MetaSet(5, 5), Item::MetaSet(6, 6)]);
+        }
+    }
     // limits disabled: every over-limit item passes
     {
         let mut lp = base();
@@ -1598,7 +1768,7 @@ fn det_tx_family(env: &mut Env, report: &mut Report, cw: &mut CaseWriter) {
         lp.max_heap_substate_total_bytes = 0;
         lp.max_track_substate_total_bytes = 0;
         lp.max_substate_key_size = 0;
-        run(env, report, cw, "detc_tx_limits_off", lp, false, true, vec![Item::Log(5), Item::Event(5), Item::Recurse(4), Item::Invoke(5000), Item::Value(5000), Item::BufferNew]);
+        run(env, report, cw, "detc_tx_limits_off", lp, false, true, vec![Item::Log(5), Item::Event(5), Item::Recurse(4), Item::Invoke(5000), Item::Value(5000), Item::BufferNew, Item::MetaSet(30, 30), Item::NfCycle(53)]);
         run(env, report, cw, "detc_tx_limits_off", lp, false, true, vec![Item::Log(5), Item::Panic(5)]);
         run(env, report, cw, "detc_tx_limits_off", lp, false, false, vec![Item::Event(5), Item::Recurse(3)]);
     }
@@ -1638,6 +1808,30 @@ fn peak_total(env: &mut Env, heap: bool, items: &[Item]) -> Option<usize> {
 /// the frame's own nodes, all dropped when the call returns: DropNodeEvent::IOAccess with
 /// new_size = None): repeating the same call must not raise the peak heap total. A counter that
 /// is not fully decremented on drop drifts upwards with every repetition.
+/// Track substates removed and written again: withdrawing a non-fungible by id removes its vault index
+/// entry (RemoveSubstateEvent::IOAccess, new_size = None), withdrawing by amount drains it
+/// (DrainSubstatesEvent::IOAccess), depositing it back sets it (SetSubstateEvent::IOAccess). Repeating
+/// the cycle must not raise the peak track (or heap) total.
+fn det_track_remove_family(env: &mut Env, report: &mut Report, idx: usize) {
+    for (name, item) in [("remove_set", Item::NfCycle(10)), ("drain_set", Item::NfDrain)] {
+        for heap in [false, true] {
+            let prog = |k: usize| -> Vec<Item> { (0..k).map(|_| item.clone()).collect() };
+            let peaks: Vec<Option<usize>> = [1usize, 2, 4].iter().map(|k| peak_total(env, heap, &prog(*k))).collect();
+            let class = format!("detc_tx_{}_{}_peak_invariant", if heap { "heap" } else { "track" }, name);
+            report.extra.insert(format!("{}_of_1_2_4_cycles", class), json!(format!("{:?}", peaks)));
+            match (&peaks[0], &peaks[1], &peaks[2]) {
+                (Some(a), Some(b), Some(c)) if a == b && b == c => report.count(&class),
+                _ => report.oracle_failure(
+                    idx,
+                    "",
+                    &format!("{}: peak {} total of 1 / 2 / 4 repetitions of withdraw + deposit of the same non-fungible: {:?}", class, if heap { "heap" } else { "track" }, peaks),
+                    json!({"program": format!("k x {:?}", item)}),
+                ),
+            }
+        }
+    }
+}
+
 fn det_heap_drop_family(env: &mut Env, report: &mut Report, idx: usize) {
     let prog = |k: usize| -> Vec<Item> { (0..k).map(|_| Item::Recurse(2)).collect() };
     let peaks: Vec<Option<usize>> = [2usize, 3, 6].iter().map(|k| peak_total(env, true, &prog(*k))).collect();
@@ -1812,6 +2006,7 @@ fn main() {
     {
         let idx = cw.len();
         det_heap_drop_family(&mut env, &mut report, idx);
+        det_track_remove_family(&mut env, &mut report, idx);
     }
     let det_n = cw.len();
     report.extra.insert("deterministic_cases".into(), json!(det_n));
